@@ -462,5 +462,8 @@ func c13Signal(r *h.Result, rng *h.Rng, tier string) error {
 	if tier != "quick" {
 		hn = 100
 	}
-	return c13SignalHTTP(r, rng.Fork(), hn)
+	if err := c13SignalHTTP(r, rng.Fork(), hn); err != nil {
+		return err
+	}
+	return c13HTTPTempoEnds(r, rng.Fork(), n)
 }
